@@ -373,6 +373,24 @@ def c_legacy(ctx, case):
             ctx.check(getattr(a, nm) == getattr(a2, nm), "legacy file read again after another machine file: %s is %r, was %r"
                       % (nm, getattr(a2, nm), getattr(a, nm)), "legacy:reread:" + nm)
         ctx.check(bool(a == a2), "legacy file read twice gives unequal machines", "legacy:reread:eq")
+        # both files read with a UBM argument (callers that handle MAP and ML files alike always pass one): still the
+        # same model with the same trainer kind, training on in the same way
+        u = sut.make_gmm(dict(p, means=np.asarray(p["means"]) + np.sqrt(np.asarray(p["variances"]))))
+        au, bu = GMMMachine.from_hdf5(legacy, ubm=u), GMMMachine.from_hdf5(current, ubm=u)
+        ctx.check(au.trainer == bu.trainer, "read with a UBM argument: legacy trainer %r, counterpart %r" % (au.trainer, bu.trainer),
+                  "legacy:ubm:trainer")
+        for name in ("weights", "means", "variances"):
+            ctx.check(np.array_equal(np.asarray(getattr(au, name)), np.asarray(getattr(bu, name))),
+                      "read with a UBM argument: legacy %s differ from the counterpart's" % name, "legacy:ubm:" + name)
+        if np.all(p["floors"] > 0) and len(case["probe"]) >= 2:
+            for m_ in (au, bu):
+                m_.max_fitting_steps, m_.convergence_threshold = 1, None
+                m_.update_means, m_.update_variances, m_.update_weights = True, True, True
+                m_.fit(case["probe"])
+            for name in ("weights", "means", "variances"):
+                ctx.check(np.array_equal(np.asarray(getattr(au, name)), np.asarray(getattr(bu, name)), equal_nan=True),
+                          "read with a UBM argument, one more EM step: legacy %s differ from the counterpart's" % name,
+                          "legacy:ubm:fit:" + name)
         for name in ("weights", "means", "variances"):
             x, y = np.asarray(getattr(a, name)), np.asarray(getattr(b, name))
             ctx.check(x.shape == y.shape and np.array_equal(x, y), "legacy %s differ from the current-format counterpart" % name,
